@@ -218,6 +218,10 @@ def build_universe(tier, rng):
             for it in (U.l_nearest(lay, "float"), U.l_linear(lay, "float")):
                 chosen.append(U.l_affine(it))
             chosen.append(lay)
+        # depth 5 (the bound of the property): stacks whose neighbouring layers all have different configuration types, so a
+        # per-depth helper that picks the wrong layer's type cannot type-check by accident
+        chosen.append(U.l_backup(U.l_affine(U.l_nearest(U.l_strided(a, "std::size_t", 3), "float"))))
+        chosen.append(U.l_clamp(U.l_affine(U.l_linear(U.l_morton(a, "std::size_t", 3, False), "float"))))
         seen = {}
         for s in chosen:
             seen.setdefault(s.key(), s)
